@@ -19,6 +19,7 @@ Signal::Signal(bool set)
   pthread_cond_init((pthread_cond_t*)cdata, 0);
   pthread_mutex_init((pthread_mutex_t*)mdata, 0);
   signaled = set;
+  generation = 0;
 #endif
 }
 
@@ -39,6 +40,7 @@ void Signal::set()
 #else
   VERIFY(pthread_mutex_lock((pthread_mutex_t*)mdata) == 0);
   signaled = true;
+  ++generation;
   VERIFY(pthread_cond_broadcast((pthread_cond_t*)cdata) == 0);
   VERIFY(pthread_mutex_unlock((pthread_mutex_t*)mdata) == 0);
 #endif
@@ -61,9 +63,10 @@ bool Signal::wait()
   return WaitForSingleObject(handle, INFINITE) == WAIT_OBJECT_0;
 #else
   VERIFY(pthread_mutex_lock((pthread_mutex_t*)mdata) == 0);
+  uint waitGeneration = generation;
   for(;;)
   {
-    if(signaled)
+    if(signaled || generation != waitGeneration) // released by a set(), even when a reset() followed before we woke up
     {
       VERIFY(pthread_mutex_unlock((pthread_mutex_t*)mdata) == 0);
       return true;
@@ -84,9 +87,10 @@ bool Signal::wait(int64 timeout)
   ts.tv_sec += timeout / 1000 + ts.tv_nsec / 1000000000;
   ts.tv_nsec %= 1000000000;
   VERIFY(pthread_mutex_lock((pthread_mutex_t*)mdata) == 0);
+  uint waitGeneration = generation;
   for(;;)
   {
-    if(signaled)
+    if(signaled || generation != waitGeneration)
     {
       VERIFY(pthread_mutex_unlock((pthread_mutex_t*)mdata) == 0);
       return true;
